@@ -88,9 +88,12 @@ def _frame_plan(draw, max_rows):
             if kind == "o":
                 vals = [None if v == "" else v for v in vals]
             if fmt == "csv":
-                vals = [("x" + v if v != "" else v) for v in vals]     # unambiguously textual
-                if all(v == "" for v in vals):
-                    vals[0] = "xtext"
+                # values spelled like null markers, numbers, booleans or dates are legitimate strings; one
+                # unambiguously textual value per column keeps the reader from inferring another column type
+                lookalikes = ["NA", "N/A", "null", "NULL", "nan", "NaN", "#N/A", "1", "2.5", "true", "2020-01-01", "-"]
+                vals = [draw(st.sampled_from(lookalikes)) if (v != "" and draw(st.integers(0, 3)) == 0) else v for v in vals]
+                anchor = draw(st.integers(0, n - 1))
+                vals[anchor] = "x" + vals[anchor]
         elif kind == "t" and fmt == "csv":
             vals = [draw(st.sampled_from(CSV_T)) for _ in range(n)]
         elif kind == "f32":
